@@ -1,33 +1,71 @@
 package luastrings
 
 import (
-	"strconv"
 	"strings"
 	"unicode"
+	"unicode/utf8"
 )
 
 var names = []byte("abtnvfr")
 
-// Quote a string so that it is a valid Lua string literal
+// Quote a string so that it is a valid Lua string literal.  The literal
+// evaluates to the same bytes as s, whatever they are: the characters of s
+// which are printable (s being decoded as UTF-8) are output as they are, all
+// the other bytes are escaped.
 func Quote(s string, quote byte) string {
 	var b strings.Builder
 	b.WriteByte(quote)
-	for _, c := range []byte(s) {
+	for i := 0; i < len(s); {
+		c := s[i]
 		switch {
-		case c == quote:
+		case c == quote || c == '\\':
 			b.WriteByte('\\')
 			b.WriteByte(c)
-		case unicode.IsGraphic(rune(c)):
-			b.WriteByte(c)
-		default:
+			i++
+		case c >= 7 && c <= 13:
 			b.WriteByte('\\')
-			if c >= 7 && c <= 13 {
-				b.WriteByte(names[c-7])
+			b.WriteByte(names[c-7])
+			i++
+		case c < utf8.RuneSelf:
+			if unicode.IsPrint(rune(c)) {
+				b.WriteByte(c)
 			} else {
-				b.WriteString(strconv.FormatInt(int64(c), 10))
+				writeDecimalEscape(&b, s, i)
+			}
+			i++
+		default:
+			r, n := utf8.DecodeRuneInString(s[i:])
+			// If the encoding is invalid then r is RuneError and n is 1, so
+			// the current byte gets escaped.
+			printable := unicode.IsPrint(r) && (r != utf8.RuneError || n > 1)
+			for ; n > 0; n-- {
+				if printable {
+					b.WriteByte(s[i])
+				} else {
+					writeDecimalEscape(&b, s, i)
+				}
+				i++
 			}
 		}
 	}
 	b.WriteByte(quote)
 	return b.String()
+}
+
+// writeDecimalEscape writes the decimal escape sequence for s[i].  It is as
+// short as possible, but has to be made of 3 digits if a digit follows it in s
+// as that one would be taken as part of the escape sequence.
+func writeDecimalEscape(b *strings.Builder, s string, i int) {
+	var (
+		c           = s[i]
+		beforeDigit = i+1 < len(s) && s[i+1] >= '0' && s[i+1] <= '9'
+	)
+	b.WriteByte('\\')
+	if c >= 100 || beforeDigit {
+		b.WriteByte('0' + c/100)
+	}
+	if c >= 10 || beforeDigit {
+		b.WriteByte('0' + c/10%10)
+	}
+	b.WriteByte('0' + c%10)
 }
